@@ -515,6 +515,7 @@ pub fn run(args: &RunArgs) -> i32 {
                         let path = first_diff_path(&m1, &m2);
                         let cause = match bad {
                             Some(x) if s1.len() == s2.len() => format!("string:{}", string_class(x).unwrap_or(if x.contains('\n') { "block-string-reindented-when-nested" } else { "no-string-cause" })),
+                            _ if primary_class(s1.iter().copied()) == "quoted-string-with-quote-or-backslash" && s1.len() != s2.len() => "string:quoted-string-with-quote-or-backslash".to_string(),
                             _ => short_path(&path),
                         };
                         Ok(Some((format!("{cause}\u{1}{path}"), printed)))
